@@ -29,7 +29,7 @@ pub fn run_case(c: &Value) -> CaseResult {
         k if k.starts_with("ff_") => ff::run(c),
         "table_seq" => table::run(c),
         "bdd_prog" | "bdd_newvar" => bdd::run(c),
-        "dnnf_cond" | "dnnf_large" => dnnf::run(c),
+        "dnnf_cond" | "dnnf_large" | "dnnf_batch" => dnnf::run(c),
         "cnf_eval" | "pm_ops" | "cnf_condition" | "cnf_wmc" | "varset_ops" | "pm_build" => cnf::run(c),
         "order_perm" | "order_heur" => order::run(c),
         "lru_seq" => lru::run(c),
